@@ -701,6 +701,14 @@ func runScenario(name string) (bool, string) {
 		r := v.([2]interface{})
 		return r[0].(bool), r[1].(string)
 	}
+	if strings.HasPrefix(name, "kq:") {
+		runKqScenarios()
+		if v, ok := scenarioCache.Load(name); ok {
+			r := v.([2]interface{})
+			return r[0].(bool), r[1].(string)
+		}
+		return true, "kqueue scenario " + name + " did not run"
+	}
 	dir, err := os.MkdirTemp("", "scenario.")
 	if err != nil {
 		return true, err.Error()
@@ -814,4 +822,57 @@ func metaScenarios(prop string) []string {
 		json.Unmarshal(raw, &e)
 	}
 	return e.Scenarios
+}
+
+
+var kqOnce sync.Once
+
+// runKqScenarios builds the kqueue-on-Linux replay module from the real sources of the tree under check
+// (replay/kqueue/build.sh: build-constraint line and two import paths rewritten, scripted kqsim) and runs
+// all its scenario tests once.
+func runKqScenarios() {
+	kqOnce.Do(func() {
+		dir, err := os.MkdirTemp("", "kqreal.")
+		if err != nil {
+			return
+		}
+		defer os.RemoveAll(dir)
+		if out, err := exec.Command("bash", filepath.Join(verifRoot(), "replay", "kqueue", "build.sh"), repoDir(), dir).CombinedOutput(); err != nil {
+			scenarioCache.Store("kq:build", [2]interface{}{false, string(out)})
+			return
+		}
+		cmd := exec.Command("go", "test", "-count=1", "-v", "-timeout", "180s", ".")
+		cmd.Dir = dir
+		cmd.Env = append(os.Environ(), "GOFLAGS=-mod=mod", "GOPROXY=off", "GOSUMDB=off", "GOTOOLCHAIN=local")
+		out, _ := cmd.CombinedOutput()
+		// split the verbose output per test
+		cur := ""
+		outputs := map[string]*strings.Builder{}
+		for _, ln := range strings.Split(string(out), "\n") {
+			t := strings.TrimSpace(ln)
+			switch {
+			case strings.HasPrefix(t, "=== RUN"):
+				cur = strings.TrimSpace(strings.TrimPrefix(t, "=== RUN"))
+				outputs[cur] = &strings.Builder{}
+			case strings.HasPrefix(t, "--- PASS:"), strings.HasPrefix(t, "--- FAIL:"):
+				f := strings.Fields(t)
+				if len(f) >= 3 {
+					pass := f[1] == "PASS:"
+					o := ""
+					if b := outputs[f[2]]; b != nil {
+						o = b.String()
+					}
+					scenarioCache.Store("kq:"+f[2], [2]interface{}{pass, o})
+				}
+			default:
+				if b := outputs[cur]; b != nil {
+					b.WriteString(ln + "\n")
+				}
+			}
+		}
+		if !strings.Contains(string(out), "--- ") {
+			// did not compile or run: every kq scenario is undecided, reported as not run
+			scenarioCache.Store("kq:build", [2]interface{}{false, firstLines(string(out), 10)})
+		}
+	})
 }
